@@ -54,8 +54,13 @@ class CircuitCarrier:
     def apply(self, act):
         from hippolyzer.lib.base.message.message import Block, Message
         from hippolyzer.lib.base.network.transport import Direction
+        from hippolyzer.lib.base.message.msgtypes import PacketFlags
         m = Message("CompletePingCheck", Block("PingID", PingID=1), direction=Direction.OUT,
                     packet_id=act["k"] if act["n"] == "Send" else None)
+        if act["n"] == "Send" and act["k"] % 2:
+            # the translation does not depend on the packet's flags: odd IDs travel as retransmissions
+            # (also when it is the proxy's first sight of them: the original was lost before the proxy)
+            m.send_flags |= PacketFlags.RESENT
         st, r = impl_call(self.c.prepare_message, m)
         if st != "ok":
             return st, r
